@@ -123,11 +123,42 @@ def c_spi_rx(dw=8, mode="raw", pads_kind="std"):
     h.assume(z3.And(V(d.length) == plen, uge(plen, 1), ule(plen, dw)), "transfer length constant during a transfer, 1..data_width (modelled as a rigid constant)")
     h.assume(V(d.loopback) == plb, "loopback is configuration: constant (rigid symbolic bit)")
     x = _spi_contract(h, d, dw, mode, pdiv, plen, plb)
-    full = (1 << dw) - 1
-    dn = max(4, dw // 2)            # a short transfer keeps the cover cheap for wide cores
     h.cover("cover.capture", z3.And(x["irq"], plb == K(0, 1), plen == K(min(dw, 8), 8), pdiv == K(2, 16), _low(x["grx"], plen, _wd(dw)) == K(0xA5 & ((1 << min(dw, 8)) - 1), _wd(dw))), depth=2 * min(dw, 8) + 8)
     h.cover("cover.loopback", z3.And(x["irq"], plb == K(1, 1), plen == K(3, 8), pdiv == K(2, 16), _low(x["gtx"], plen, _wd(dw)) == K(5, _wd(dw))), depth=16)
     h.bmc_depth = 2 * min(dw, 8) + 8
+    h.functions = ["litex.soc.cores.spi.spi_master.SPIMaster.__init__"]
+    return h
+
+def c_spi_bound(dw=8, split=True):
+    """bounded duration (the clause that the corner configurations below violate): with divider >= 2 and 1 <= length <= data_width a transfer
+    is busy for at most (length + 2) SCK periods = (length + 2) * divider system clock cycles"""
+    from litex.soc.cores.spi import SPIMaster
+    d = mk(SPIMaster, None, dw, 100e6, 25e6, with_csr=False, mode="raw"); pads = d.pads
+    h = HwCheck(f"SPIMaster.bound(dw={dw})", d, [d.start, d.length, d.mosi, d.cs, d.cs_mode, d.loopback, d.clk_divider, pads.miso])
+    V = h.v
+    pdiv = h.const("div", 16); plen = h.const("len", 8)
+    h.assume(z3.And(V(d.clk_divider) == pdiv, uge(pdiv, 2)), "the clock divider is configuration: constant and >= 2")
+    h.assume(z3.And(V(d.length) == plen, uge(plen, 1), ule(plen, dw)), "transfer length constant during a transfer, 1..data_width (modelled as a rigid constant)")
+    st, enc = d.fsm.state, d.fsm.encoding
+    idle, sstart, run, stop = [eqc(V(st), enc[n]) for n in ("IDLE", "START", "RUN", "STOP")]
+    busy = z3.Not(idle)
+    AW = 16 + (dw + 2).bit_length() + 1
+    age = h.ghost("age", AW); h.ghost_next(age, z3.If(idle, K(0, AW), z3.If(age == K((1 << AW) - 1, AW), age, age + 1)))      # busy cycles so far
+    cdiv = L(d, "clk_divider"); count = L(d, "count")
+    if cdiv is not None and count is not None and cdiv in h.ts.var and count in h.ts.var:
+        dv = zx(pdiv, AW); cn = zx(V(cdiv), AW)
+        h.hint("st", ult(V(st), 4))
+        h.hint("cnt<div", z3.ULT(V(cdiv), pdiv))
+        h.hint("count<len", z3.Implies(run, z3.ULT(zx(V(count), 8), plen)))
+        h.hint("stop-phase", z3.Implies(stop, z3.ULT(V(cdiv), z3.LShR(pdiv, 1))))
+        h.hint("age.start", z3.Implies(sstart, z3.ULE(age, cn)))
+        for k in range(dw):        # split by value: products with a constant only
+            h.hint(f"age.run{k}", z3.Implies(z3.And(run, eqc(V(count), k)), z3.ULE(age, dv * K(k + 1, AW) + cn)))
+            h.hint(f"age.stop{k + 1}", z3.Implies(z3.And(stop, plen == K(k + 1, 8)), z3.ULE(age, dv * K(k + 2, AW) + cn)))
+    else: h.use_auto = True
+    h.ensure("ens.finish-bound", z3.And(*[z3.Implies(z3.And(busy, plen == K(n, 8)), z3.ULE(age, K(n + 2, AW) * zx(pdiv, AW))) for n in range(1, dw + 1)]))
+    h.cover("cover.long", z3.And(stop, age == K(14, AW), pdiv == K(4, 16)), depth=18)
+    h.bmc_depth = 20
     h.functions = ["litex.soc.cores.spi.spi_master.SPIMaster.__init__"]
     return h
 
